@@ -6,7 +6,7 @@ PROP = 'C18'
 MODULES = ['PistacheModel.Props.C18']
 THEOREMS = ['Pistache.Mime.Props.' + t for t in (
     'tables_prefix_free', 'tables_wellformed', 'q_roundtrip', 'paramLoop_tail', 'parse_rendered_anycase',
-    'mime_roundtrip', 'paramLoop_never_fuel', 'parse_outcomes')]
+    'mime_roundtrip', 'paramLoop_never_fuel', 'parse_outcomes', 'nonfinite_quality_rejected')]
 
 TYPES = ['*', 'text', 'image', 'audio', 'video', 'application', 'message', 'multipart']
 TNAMES = ['Star', 'Text', 'Image', 'Audio', 'Video', 'Application', 'Message', 'Multipart']
@@ -77,8 +77,20 @@ def gen(tier, rnd):
     for s in base:
         for k in range(len(s) + 1):
             lines.append('mime ' + hx(s[:k]))
+    # bytes that differ from a table character only in bit 0x20 (the bit a careless case fold touches): '*' <-> LF, '-' <-> CR, '+' <-> VT,
+    # '/' <-> SI, '.' <-> SO, digits <-> control characters, and the same for letters (where the fold is right)
+    for names in (T['mimeTypes'], T['mimeSubtypes'], T['mimeSuffixes']):
+        for _, nm in names:
+            for i, ch in enumerate(nm):
+                if not ch.isalpha():
+                    flipped = nm[:i] + chr(ord(ch) ^ 0x20) + nm[i + 1:]
+                    for text in (flipped + '/html', 'text/' + flipped, 'application/x+' + flipped, flipped + '/' + flipped):
+                        lines.append('mime ' + hx(text))
+    for text in ('text/html', 'text/html+json', 'application/vnd.api+json; q=0.5', '*/*', 'text/x-c'):
+        for i, ch in enumerate(text):
+            lines.append('mime ' + hx(text[:i] + chr(ord(ch) ^ 0x20) + text[i + 1:]))
     # malformed: one mutation of a valid string
-    bad_q = ['1.5', '-1', 'abc', '', '0.333', '0.285', '0.005', '0.995', '1.001', '2', '100', '1e3', '1e-400', '1e400', '0x1p-1', 'inf', 'nan', '-0.0',
+    bad_q = ['NaN', 'NAN', 'nan(1)', '-nan', '+nan', 'Inf', 'INF', 'infinity', 'Infinity', '-inf', '+inf', 'infx', 'nanx', ' nan','1.5', '-1', 'abc', '', '0.333', '0.285', '0.005', '0.995', '1.001', '2', '100', '1e3', '1e-400', '1e400', '0x1p-1', 'inf', 'nan', '-0.0',
              '0.12345678901234567890', '99999999999999999999', '.', '-', '+', 'e5', '0.5e', '0.5e+', '0.5x', '1e', '\xd9\xa1']
     for qv in bad_q:
         for pre in ('text/html; q=', 'text/html;q=', '*/*; Q='):
@@ -132,7 +144,7 @@ RULE = ('all 101 quality values; every (type,subtype,suffix|none) combination of
         'random capitalisation; every truncation of valid strings (exact-size heap buffers); q-value stress list; seeded one-mutation '
         'strings and garbage. non-trivial = distinct (op, outcome/fields, length class)')
 ASSUME = ['strtod/round/snprintf on decimals with <=2 fractional digits behave as the exact decimal model (K-diffed on all 101 values)',
-          'model answers "unspecified" for hex floats, inf, nan, >15 significant digits and rounding ties (counted, not compared, sanitizer outcomes still fatal)',
+          'model answers "unspecified" for hex floats, >15 significant digits and rounding ties (counted, not compared, sanitizer outcomes still fatal)',
           'tolower in the C locale; params compared as maps (unordered_map order arbitrary)']
 
 def run(tier):
